@@ -792,6 +792,9 @@ func runFrame(fr *frame) {
 		nonPhis := executePhis(fr)
 		for _, instr := range nonPhis {
 			in.steps++
+			if stepDump > 0 && in.steps%stepDump == 0 {
+				fmt.Fprintf(os.Stderr, "STEPDUMP steps=%d g=%d%s\n", in.steps, in.curG.id, stackOf(fr))
+			}
 			if in.steps > in.maxSteps {
 				panic(pathEnd{"bound", fmt.Sprintf("instruction budget %d exhausted in %s", in.maxSteps, fr.fn)})
 			}
@@ -808,6 +811,12 @@ func runFrame(fr *frame) {
 		}
 	}
 }
+
+var stepDump = func() int64 {
+	var n int64
+	fmt.Sscanf(os.Getenv("GOSX_STEPDUMP"), "%d", &n)
+	return n
+}()
 
 func stackOf(fr *frame) string {
 	out := ""
